@@ -223,8 +223,15 @@ def write_evidence(mod, check, a, merged, extra, new, kf_lines, problems, wall, 
         tree=REPO,
     )
     if getattr(mod, "EXHAUSTIVE", None):
-        cov["exhaustive"] = bool(merged["counters"].get("exhaustive_complete", 0) >= 1)
-        cov["exhaustive_scope"] = mod.EXHAUSTIVE
+        done = bool(merged["counters"].get("exhaustive_complete", 0) >= nshards)
+        if mod.LEVEL == "fault_enumeration":
+            # the enumerated space (grammar x positions of the base games) IS what the level claims
+            cov["exhaustive"] = done
+            cov["exhaustive_scope"] = mod.EXHAUSTIVE
+        else:
+            # an exploration that contains completely enumerated sub-spaces: said so, without claiming the whole run
+            cov["exhaustive"] = False
+            cov["exhaustively_enumerated_subspaces"] = dict(description=mod.EXHAUSTIVE, completed=done)
     cov["observed"].update(extra)
     if kf_lines:
         cov["known_findings_observed"] = kf_lines
